@@ -38,6 +38,8 @@ type Solver struct {
 	depth  int
 	timeoutMs int
 	valDur time.Duration
+	litTerm map[int]*Term
+	pendingCmd string
 }
 
 func NewSolver(ctx *TermCtx, timeoutMs int) (*Solver, error) {
@@ -54,13 +56,14 @@ func NewSolver(ctx *TermCtx, timeoutMs int) (*Solver, error) {
 	if err := cmd.Start(); err != nil {
 		return nil, err
 	}
-	s := &Solver{cmd: cmd, in: bufio.NewWriterSize(in, 1<<16), inRaw: in, out: bufio.NewReaderSize(out, 1<<16), ctx: ctx, timeoutMs: timeoutMs}
+	s := &Solver{cmd: cmd, in: bufio.NewWriterSize(in, 1<<16), inRaw: in, out: bufio.NewReaderSize(out, 1<<16), ctx: ctx, timeoutMs: timeoutMs, litTerm: map[int]*Term{}}
 	if p := os.Getenv("GOSYM_SMTLOG"); p != "" {
 		f, _ := os.Create(p)
 		s.log = bufio.NewWriter(f)
 	}
 	s.send("(set-option :global-declarations true)")
 	s.send("(set-option :produce-models true)")
+	s.send("(set-option :produce-unsat-cores true)")
 	s.send(fmt.Sprintf("(set-option :timeout %d)", timeoutMs))
 	return s, nil
 }
@@ -206,7 +209,12 @@ func (s *Solver) readLine() string {
 
 // Check runs (check-sat) in the current scope.
 func (s *Solver) Check() Res {
-	s.send("(check-sat)")
+	if s.pendingCmd != "" {
+		s.send(s.pendingCmd)
+		s.pendingCmd = ""
+	} else {
+		s.send("(check-sat)")
+	}
 	t0 := time.Now()
 	s.in.Flush()
 	if s.log != nil {
@@ -384,4 +392,52 @@ func solverPath() string {
 		return "/usr/local/bin/z3-new"
 	}
 	return "/usr/bin/z3"
+}
+
+// lit returns the name of the indicator literal of t, declaring it on first use.
+func (s *Solver) lit(t *Term) string {
+	name := "p" + strconv.Itoa(t.id)
+	if !t.plit {
+		s.send("(declare-const " + name + " Bool)")
+		t.plit = true
+		s.litTerm[t.id] = t
+	}
+	return name
+}
+
+// AssertImp asserts (=> p_t t) in the current scope.
+func (s *Solver) AssertImp(t *Term) {
+	s.define(t)
+	s.send("(assert (=> " + s.lit(t) + " " + s.ref(t) + "))")
+}
+
+// CheckAssuming decides the conjunction of the given (already AssertImp-ed) terms; on unsat returns the core.
+func (s *Solver) CheckAssuming(ts []*Term) (Res, []*Term) {
+	var sb strings.Builder
+	sb.WriteString("(check-sat-assuming (")
+	for _, t := range ts {
+		sb.WriteString(s.lit(t))
+		sb.WriteByte(' ')
+	}
+	sb.WriteString("))")
+	// reuse Check's reader: send manually
+	s.pendingCmd = sb.String()
+	res := s.Check()
+	if res != Unsat {
+		return res, nil
+	}
+	s.send("(get-unsat-core)")
+	s.in.Flush()
+	txt := s.readSexp()
+	var core []*Term
+	for _, f := range strings.Fields(strings.NewReplacer("(", " ", ")", " ").Replace(txt)) {
+		if len(f) > 1 && f[0] == 'p' {
+			if id, err := strconv.Atoi(f[1:]); err == nil {
+				if t := s.litTerm[id]; t != nil {
+					core = append(core, t)
+				}
+			}
+		}
+	}
+	return res, core
 }
